@@ -51,6 +51,7 @@ func runC14(c *core.Ctx) {
 	c14R6(c)
 	c14R7(c)
 	c20R5as(c, "C14.R8")
+	c14R9(c, "C14.R9")
 }
 
 // c14R7: the ban lookup reads the replicated state under the ban's own key and type.
@@ -627,3 +628,31 @@ func c14R6(c *core.Ctx) {
 }
 
 func hasSuffix(s, suf string) bool { return len(s) >= len(suf) && s[len(s)-len(suf):] == suf }
+
+// c14R9: nothing in the replicated-set packages removes entries from the durable store except
+// buntdb's own expiry of tombstones (C14.R6): an entry deleted outright (Tx.Delete/DeleteAll,
+// a dropped index, os.Remove of the file) takes its add/remove times with it — a ban that was
+// toggled (add > del > 0) vanishes on restart, and a removed entry can be resurrected by an
+// older gossip.
+func c14R9(c *core.Ctx, rule string) {
+	c.Rule(rule, "the durable replicated set is never shrunk by the broker itself: no call of buntdb Tx.Delete / Tx.DeleteAll / DB.Load(overwrite) / os.Remove* / os.Truncate in internal/event and internal/event/crdt (expected: 0 sites; the overlay mutant C14-purge-on-open is the positive example)", 1)
+	forbidden := []string{
+		"github.com/tidwall/buntdb.Tx.Delete", "github.com/tidwall/buntdb.Tx.DeleteAll", "github.com/tidwall/buntdb.DB.Load",
+		"os.Remove", "os.RemoveAll", "os.Truncate", "os.Rename",
+	}
+	n, funcs := 0, 0
+	for _, f := range c.P.ScopeFuncs() {
+		if p := pkgPathOf(f); p != M+"event" && p != M+"event/crdt" {
+			continue
+		}
+		funcs++
+		for _, call := range eng.Calls(f, false, forbidden...) {
+			n++
+			c.Fail(rule, fmt.Sprintf("%s:removes from the durable set (%s)", fnName(f), shortT(eng.FuncID(eng.CalleeObj(call.Common())))), call.Pos(), "entries of the durable replicated set (the ban list) are removed by the broker itself: their add/remove times are lost, so a key banned again after an unban (add > del > 0) is no longer banned after a restart, and older gossip can resurrect removed entries")
+		}
+	}
+	c.Count("functions_analysed", funcs)
+	if n == 0 {
+		c.OK(rule, "no deletion from the durable set", token.NoPos, fmt.Sprintf("%d functions of internal/event and internal/event/crdt: entries leave the store only through the tombstone expiry of C14.R6", funcs))
+	}
+}
